@@ -7,6 +7,8 @@ open Ak Ak.Proto Table
 structure St where
   tbl : Option (Tbl × CtorArgs) := none
   last : Option (List Char) := none
+  /-- a sibling table built from the live table's format object with other records -/
+  sib : Option (Tbl × CtorArgs) := none
 
 def noTable : String := "err NoTable"
 
@@ -25,7 +27,7 @@ def doCtor (s : St) (fmt : Option (List Char)) : St × String :=
     -- a table built without `fields` is rebuilt with the field names it was given (`col_N`, dummy)
     let fields := match a.fields with
       | some fs => some fs
-      | none => some (t.fmt.fields.map fun fl => (⟨fl.name, fl.ftype, .none⟩ : FieldSpec))
+      | none => some (t.fmt.fields.map fun fl => (⟨fl.name, fl.ftype, .none, none⟩ : FieldSpec))
     let a' : CtorArgs := { a with fields := fields, fmt := some f, limits := none, skip := none }
     match mkTable a' with
     | .ok t' => ({ s with tbl := some (t', a') }, "ok")
@@ -86,6 +88,27 @@ def handle (s : St) (line : String) : St × String :=
   | ["setlast"] => match s.last with
     | some f => doSet s (some f)
     | none => (s, noTable)
+  | "newobj" :: rest =>   -- a table whose format is built from ReprColumn objects (no parser involved)
+    match Wire.splitAt rest with
+    | [spec, q] =>
+      match Wire.parseSpec spec, Wire.parseDirect q with
+      | some a, some (cols, lims) =>
+        match mkTableDirect a cols lims with
+        | .ok t => ({ tbl := some (t, a), last := none }, "ok")
+        | .error e => ({}, "err " ++ e.name)
+      | _, _ => ({}, "bad-op")
+    | _ => ({}, "bad-op")
+  | "sib" :: rest =>   -- PPTable(records2, fmt_obj=table.fmt, …): a second table from the same format object
+    match s.tbl, Wire.parseRest rest with
+    | some (t, a), some r =>
+      let u := mkTableFromFmt t.fmt r.records r.limits r.skip r.header r.footer
+      ({ s with sib := some (u, { a with records := r.records, header := r.header, footer := r.footer }) }, "ok")
+    | none, some _ => (s, noTable)
+    | _, none => (s, "bad-op")
+  | ["swap"] =>        -- the sibling becomes the live table and vice versa
+    match s.tbl, s.sib with
+    | some l, some b => ({ s with tbl := some b, sib := some l }, "ok")
+    | _, _ => (s, noTable)
   | ["ctorobj"] =>   -- PPTable(records, fmt_obj=table.fmt, header=…, footer=…)
     match s.tbl with
     | some (t, a) => ({ s with tbl := some (mkTableFromFmt t.fmt t.records none none a.header a.footer, a) }, "ok")
